@@ -11,7 +11,7 @@ from mpsa.loader import dotted, norm_text
 from mpsa.match import Scope, is_name, is_none, method_of, walk_deep_func, walk_shallow_func
 from mpsa.report import Checker
 
-from .common import REMOTE_EXC, build_cfg
+from .common import REMOTE_EXC, build_cfg, implied_by
 
 
 def run(ck: Checker):
@@ -45,6 +45,15 @@ def run(ck: Checker):
                 cause = [n for n in walk_shallow_func(rb.node) if isinstance(n, ast.Assign) and dotted(n.targets[0]) == f'{ps[0]}.__cause__']
                 if not (cause and isinstance(cause[0].value, ast.Call) and dotted(cause[0].value.func) == 'RemoteTraceback' and cause[0].value.args and is_name(cause[0].value.args[0], ps[1])):
                     probs.append(f'{fn} does not set `{ps[0]}.__cause__ = RemoteTraceback({ps[1]})`')
+                else:
+                    # on every path: an exception that already has a cause (`raise X from Y`, custom __reduce__) must still
+                    # come out remote, otherwise its traceback text is lost and it cannot be forwarded again
+                    rcfg = build_cfg(rb, ck.repo, None)
+                    ck.analysed_func(rb, rcfg)
+                    setters = {n.id for n in rcfg.nodes if n.ast in cause}
+                    pth = path_avoiding(rcfg, [rcfg.entry], {rcfg.exit_return}, avoid=setters)
+                    if pth is not None:
+                        probs.append(f'{fn} can return without attaching the RemoteTraceback (the assignment of `__cause__` is conditional): such an exception arrives not remote, without its traceback text')
                 r2 = [n for n in walk_shallow_func(rb.node) if isinstance(n, ast.Return)]
                 if not (r2 and all(is_name(r.value, ps[0]) for r in r2)):
                     probs.append(f'{fn} does not return the exception it was given')
@@ -130,6 +139,15 @@ def run(ck: Checker):
     r = [n for n in walk_shallow_func(ered.node) if isinstance(n, ast.Return)]
     if not (r and isinstance(r[0].value, ast.Tuple) and norm_text(r[0].value.elts[0]) in ('type(self)', 'self.__class__', 'EnsembleError') and norm_text(r[0].value.elts[1]) == '(self.args[1],)'):
         probs.append(f'EnsembleError.__reduce__ returns `{norm_text(r[0].value) if r else None}`, not (type(self), (self.args[1],))')
+    probs += nested_rewrap_problems(ck)[1]
+    ck.ob('C15-5', ered, r[0] if r else ered.node, not probs, '; '.join(probs) if probs else 'EnsembleError round-trips through its results dict; nested BaseException members are re-wrapped in RemoteException')
+
+
+def nested_rewrap_problems(ck: Checker):
+    """(init FuncInfo, problems): RemoteException.__init__ re-wraps every exception member of every EnsembleError."""
+    mod = ck.repo.module(REMOTE_EXC)
+    init = mod.cls('RemoteException').method('__init__')
+    probs = []
     # re-wrapping of nested exceptions in RemoteException.__init__
     wrap = [n for n in walk_deep_func(init.node) if isinstance(n, ast.Assign) and isinstance(n.targets[0], ast.Subscript) and isinstance(n.value, ast.Call) and norm_text(n.value.func) in ('self.__class__', 'RemoteException', 'type(self)')]
     guard = [n for n in walk_deep_func(init.node) if isinstance(n, ast.If) and 'isinstance' in norm_text(n.test) and 'EnsembleError' in norm_text(n.test)]
@@ -139,4 +157,12 @@ def run(ck: Checker):
         inner = [n for n in ast.walk(guard[0]) if isinstance(n, ast.If) and n is not guard[0] and 'isinstance' in norm_text(n.test)]
         if not inner or 'BaseException' not in norm_text(inner[0].test):
             probs.append('the re-wrapping is not limited to members that are exceptions')
-    ck.ob('C15-5', ered, r[0] if r else ered.node, not probs, '; '.join(probs) if probs else 'EnsembleError round-trips through its results dict; nested BaseException members are re-wrapped in RemoteException')
+        else:
+            # ...and not narrower than that: every EnsembleError, every member that is an exception
+            pexc = init.params()[1]
+            if not implied_by(guard[0].test, {f'isinstance({pexc}, EnsembleError)'}):
+                probs.append(f'the re-wrapping runs only when `{norm_text(guard[0].test)}`: an EnsembleError for which the extra condition fails crosses the next process boundary with bare member exceptions (their remote tracebacks are lost, a further hop raises ValueError)')
+            member = norm_text(wrap[0].targets[0])
+            if not implied_by(inner[0].test, {f'isinstance({member}, BaseException)'}):
+                probs.append(f'a member is re-wrapped only when `{norm_text(inner[0].test)}`: a member exception for which the extra condition fails (e.g. one that came out of a pickle and has no live traceback) stays bare and loses its remote traceback at the next hop')
+    return init, probs
